@@ -37,7 +37,7 @@ PROPS = {
                 level_note='query traversal (keys, *, [*], filters, variables, key-case converters) and list flattening in operators.rs are NOT under contract: a change confined to query_retrieval_with_converter is not detected by this check',
                 not_under_contract=['query_retrieval_with_converter', 'operators.rs list-valued Eq/In', 'eval_guard_block_clause', 'eval_type_block_clause', 'key capture (add_variable_capture_key)', 'parser'],
                 explanation=''),
-    'C08': dict(level='proof', vgroups=['eval', 'eval_blocks', 'eval_disp', 'index', 'index2', 'tracker', 'tables', 'validate', 'validate_data', 'exit', 'status', 'merge', 'report'],
+    'C08': dict(level='proof', vgroups=['eval', 'eval_blocks', 'eval_disp', 'index', 'index2', 'tracker', 'tables', 'validate', 'validate_data', 'structured', 'exit', 'status', 'merge', 'report'],
                 kunits=['U-substr', 'U-call', 'U-cnf', 'U-count', 'U-conv', 'U-join', 'U-expect', 'U-xr'],
                 kunits_quick=['U-substr', 'U-call'],
                 assumptions=EVAL_ASSUME + KANI_ASSUME,
@@ -74,8 +74,8 @@ PROPS = {
                 level_note='to_upper/to_lower/url_decode/regex_replace/json_parse and the String arms of parse_* delegate to std / third-party code (trusted); composition laws are not decided',
                 not_under_contract=['to_upper', 'to_lower', 'url_decode', 'regex_replace', 'json_parse', 'parse_* on strings', 'now', 'parse_epoch'],
                 explanation='All string-valued obligations are bounded checks (strings <= 3 bytes, <= 3 arguments); the numeric/char converter obligations are complete over their payload domain. Bounded obligations are counted under bounded_obligations, never under discharged.'),
-    'C06': dict(level='proof', level_text='the exit-code functions are proved equal to what the property states, for all arguments: test::get_exit_code and JunitReporter::update_exit_code (severity folds), validate::evaluate_rule (parse error -> 5, FAIL -> 19, else 0) composed with validate::evaluate_against_data_input (overall FAIL iff the evaluation of some data file, input parameters merged in front, is FAIL; proved against the very contract text evaluate_rule assumes); parser and per-file evaluation uninterpreted', level_note='the inline fold in Validate::execute, StructuredEvaluator::evaluate / CommonStructuredReporter::report and main are not under contract', vgroups=['exit', 'validate', 'validate_data'], kunits=[], assumptions=COMMON_ASSUME + ['group validate_data: reporter chain construction replaced by verif_reporter() (R10r), writeln!(serde_json..) by verif_write_json (write errors assumed absent: the real code panics there), PathAwareValue::merge / clone, root_scope, eval_rules_file (narrowed, R5n), RecordTracker::extract (assumes the record tree is closed), Traversal::from, print_verbose_tree: hand-declared assumed stubs (verus/prelude_validate_data.rs)'],
-                not_under_contract=['Validate::execute exit-code folding (inline `if status != SUCCESS { exit_code = status }`, I/O)', 'StructuredEvaluator::evaluate / CommonStructuredReporter::report (closures, I/O, &mut unsizing)', 'main'], explanation=''),
+    'C06': dict(level='proof', level_text='the exit-code functions are proved equal to what the property states, for all arguments: test::get_exit_code and JunitReporter::update_exit_code (severity folds), validate::evaluate_rule (parse error -> 5, FAIL -> 19, else 0) composed with validate::evaluate_against_data_input (overall FAIL iff the evaluation of some data file, input parameters merged in front, is FAIL; proved against the very contract text evaluate_rule assumes); structured path: CommonStructuredReporter::report (JSON / YAML / SARIF) returns the entry code when nothing FAILs, 19 when something FAILs and everything parsed, never 0 after a FAIL; parser and per-file evaluation uninterpreted', level_note='the inline fold in Validate::execute, StructuredEvaluator::evaluate (closures: parse-error -> 5 bookkeeping, choice of reporter), the JUnit reporter body (closure fold; only its update_exit_code is proved) and main are not under contract', vgroups=['exit', 'validate', 'validate_data', 'structured'], kunits=[], assumptions=COMMON_ASSUME + ['group validate_data: reporter chain construction replaced by verif_reporter() (R10r), writeln!(serde_json..) by verif_write_json (write errors assumed absent: the real code panics there), PathAwareValue::merge / clone, root_scope, eval_rules_file (narrowed, R5n), RecordTracker::extract (assumes the record tree is closed), Traversal::from, print_verbose_tree: hand-declared assumed stubs (verus/prelude_validate_data.rs)'],
+                not_under_contract=['Validate::execute exit-code folding (inline `if status != SUCCESS { exit_code = status }`, I/O)', 'StructuredEvaluator::evaluate (closures, I/O, Box<dyn> unsizing)', 'JunitReporter::report (closure try_fold)', 'main'], explanation=''),
 }
 
 HOOK_COMMITS = ['cb466a2', 'c4d9d89']
